@@ -687,13 +687,20 @@ func ruleAtom2(c *Ctx, r *Reporter) {
 			continue
 		}
 		var itemCalls []*ssa.Call
-		coneInstrs(fn, func(in ssa.Instruction) {
-			if call, ok := in.(*ssa.Call); ok {
-				if f := calleeObj(&call.Call); f != nil && f.Pkg() != nil && f.Pkg().Path() == pkgLungo && helpers[fullShort(f)] {
-					itemCalls = append(itemCalls, call)
+		scan := func(walk func(*ssa.Function, func(ssa.Instruction))) {
+			walk(fn, func(in ssa.Instruction) {
+				if call, ok := in.(*ssa.Call); ok {
+					if f := calleeObj(&call.Call); f != nil && f.Pkg() != nil && f.Pkg().Path() == pkgLungo && helpers[fullShort(f)] {
+						itemCalls = append(itemCalls, call)
+					}
 				}
-			}
-		})
+			})
+		}
+		scan(allInstrs)
+		if len(itemCalls) == 0 {
+			// the item loop moved into a private helper of the method
+			scan(coneInstrs)
+		}
 		if len(itemCalls) == 0 {
 			r.bad(name+":per-item helper calls", c.pos(fn.Pos()), "no call of a per-item helper found")
 			continue
